@@ -59,11 +59,15 @@ pub fn normalise(out: &[u8]) -> Vec<u8> {
 }
 
 #[derive(Clone, Debug, Serialize, Deserialize)]
-pub struct InprocCase { pub requests: Vec<u16> }
+pub struct InprocCase { pub requests: Vec<u16>, #[serde(default)] pub fresh: bool }
 
 pub fn eval_inproc(ctx: &Ctx, c: &InprocCase) -> Verdict {
     let reqs: Vec<Vec<u8>> = c.requests.iter().map(|k| pool_request(*k)).collect();
-    let serial: Vec<Vec<u8>> = reqs.iter().map(|r| normalise(&inproc::serve(r, Transport::default(), 10000, AppKind::Real, Entry::Process).out)).collect();
+    // fresh: a docroot nobody has used yet, the concurrent phase first, the reference afterwards
+    let home = std::env::current_dir().ok();
+    let fresh_tree = if c.fresh { match crate::fw::tree::Tree::materialise(&crate::fw::greq::fixed_tree(), &crate::fw::scratch_base()) { Ok(t) => { let _ = std::env::set_current_dir(&t.root); Some(t) } Err(_) => None } } else { None };
+    let run_serial = || -> Vec<Vec<u8>> { reqs.iter().map(|r| normalise(&inproc::serve(r, Transport::default(), 10000, AppKind::Real, Entry::Process).out)).collect() };
+    let mut serial: Vec<Vec<u8>> = if fresh_tree.is_none() { run_serial() } else { vec![] };
     let barrier = std::sync::Arc::new(std::sync::Barrier::new(reqs.len()));
     let mut handles = vec![];
     for (i, r) in reqs.iter().enumerate() {
@@ -71,8 +75,12 @@ pub fn eval_inproc(ctx: &Ctx, c: &InprocCase) -> Verdict {
         handles.push(std::thread::Builder::new().name(format!("{}", i)).spawn(move || { b.wait(); let o = inproc::serve(&r, Transport::default(), 10000, AppKind::Real, Entry::Process); (o.out, o.result.err()) }).unwrap());
     }
     let mut problems = vec![];
-    for (i, h) in handles.into_iter().enumerate() {
-        match h.join() {
+    let joined: Vec<_> = handles.into_iter().map(|h| h.join()).collect();
+    if fresh_tree.is_some() { serial = run_serial(); }
+    if let (Some(_), Some(h)) = (&fresh_tree, &home) { let _ = std::env::set_current_dir(h); }
+    drop(fresh_tree);
+    for (i, h) in joined.into_iter().enumerate() {
+        match h {
             Err(_) => problems.push(("concurrent-thread-died".to_string(), format!("request {}", i))),
             Ok((out, panic)) => {
                 if let Some((m, loc)) = panic { problems.push((format!("panic-under-concurrency:{}:{}", panic_module(&loc), m), format!("request {} panicked at {}", crate::fw::util::lossy(&reqs[i], 80), loc))); continue; }
@@ -90,20 +98,30 @@ pub fn eval_inproc(ctx: &Ctx, c: &InprocCase) -> Verdict {
 }
 
 #[derive(Clone, Debug, Serialize, Deserialize)]
-pub struct NetCase { pub workers: u8, pub shape: u8, pub requests: Vec<u16> }
+pub struct NetCase { pub workers: u8, pub shape: u8, pub requests: Vec<u16>,
+    /// a docroot and a server nobody has used yet, the concurrent phase first and the one-at-a-time reference afterwards: whatever the server
+    /// sets up on first use (lazily created files, caches) is then set up under concurrency
+    #[serde(default)] pub fresh: bool }
 
 pub fn eval_net(ctx: &Ctx, docroot: &std::path::Path, c: &NetCase) -> Verdict {
     let n = c.workers.max(1) as u32;
+    let fresh_tree = if c.fresh { match crate::fw::tree::Tree::materialise(&crate::fw::greq::fixed_tree(), &crate::fw::scratch_base()) { Ok(t) => Some(t), Err(e) => { ctx.inconclusive(&format!("fresh docroot: {}", e)); return Verdict::Discard; } } } else { None };
+    let docroot = fresh_tree.as_ref().map(|t| t.root.as_path()).unwrap_or(docroot);
     let srv = match Server::start(&ServerOpts::new(docroot, n)) { Ok(s) => s, Err(e) => { ctx.inconclusive(&format!("server start: {}", e)); return Verdict::Discard; } };
     let mut srv = srv;
     let limit = Duration::from_secs(10);
     let reqs: Vec<Vec<u8>> = c.requests.iter().map(|k| pool_request(*k)).collect();
-    let mut serial = vec![];
-    for r in &reqs {
-        let ex = srv.roundtrip(r, limit);
-        if ex.outcome == Outcome::TimedOut { ctx.inconclusive("serial request timed out"); return Verdict::Discard; }
-        serial.push(normalise(&ex.bytes));
-    }
+    let run_serial = |srv: &Server| -> Option<Vec<Vec<u8>>> {
+        let mut serial = vec![];
+        for r in &reqs {
+            let ex = srv.roundtrip(r, limit);
+            if ex.outcome == Outcome::TimedOut { return None; }
+            serial.push(normalise(&ex.bytes));
+        }
+        Some(serial)
+    };
+    let mut serial: Vec<Vec<u8>> = vec![];
+    if !c.fresh { serial = match run_serial(&srv) { Some(s) => s, None => { ctx.inconclusive("serial request timed out"); return Verdict::Discard; } }; }
     let mut got: Vec<(Vec<u8>, Outcome, Instant, Instant)> = vec![];
     match c.shape % 3 {
         0 => {
@@ -136,6 +154,8 @@ pub fn eval_net(ctx: &Ctx, docroot: &std::path::Path, c: &NetCase) -> Verdict {
     }
     let mut problems = vec![];
     if let Some(e) = srv.exited() { problems.push(("server-process-gone".to_string(), e)); }
+    if c.fresh && problems.is_empty() { serial = match run_serial(&srv) { Some(s) => s, None => { ctx.inconclusive("serial request timed out"); return Verdict::Discard; } }; }
+    if serial.len() != reqs.len() { return ctx.judge(problems, false, vec![]); }
     for (i, (bytes, outcome, _, _)) in got.iter().enumerate() {
         if *outcome == Outcome::TimedOut { if srv.exited().is_none() && srv.missing_workers().is_empty() { ctx.inconclusive("concurrent request timed out although the server looks healthy"); return Verdict::Discard; } }
         let g = normalise(bytes);
@@ -153,6 +173,7 @@ pub fn eval_net(ctx: &Ctx, docroot: &std::path::Path, c: &NetCase) -> Verdict {
     let mut classes = vec![match c.shape % 3 { 0 => "shape-backlog-all-at-once", 1 => "shape-barrier", _ => "shape-staggered" }];
     classes.push(match n { 1 => "workers-1", 2 => "workers-2", 4 => "workers-4", 8 => "workers-8", _ => "workers-16" });
     if overlapping { classes.push("overlap-confirmed"); }
+    if c.fresh { classes.push("fresh-docroot-and-server-concurrent-phase-first"); }
     ctx.judge(problems, overlapping && distinct.len() >= 2, classes)
 }
 
@@ -161,9 +182,9 @@ pub fn run(ctx: &Ctx) {
     let tree = match fixed_docroot() { Ok(t) => t, Err(e) => { ctx.inconclusive(&format!("docroot: {}", e)); return; } };
     *ctx.max_shrink_iters.borrow_mut() = 100;
     let reqs = prop_oneof![3 => proptest::collection::vec(any::<u16>(), 2..12), 2 => proptest::collection::vec(any::<u16>(), 12..=64)];
-    ctx.prop("inproc", ctx.share(ctx.scale(2400, 60_000)), reqs.clone().prop_map(|requests| InprocCase { requests }), |c| eval_inproc(ctx, c));
+    ctx.prop("inproc", ctx.share(ctx.scale(2400, 60_000)), (reqs.clone(), proptest::bool::weighted(0.2)).prop_map(|(requests, fresh)| InprocCase { requests, fresh }), |c| eval_inproc(ctx, c));
     let root = tree.root.clone();
-    let nc = (prop::sample::select(vec![1u8, 2, 4, 8, 16]), 0u8..3, reqs).prop_map(|(workers, shape, requests)| NetCase { workers, shape, requests });
+    let nc = (prop::sample::select(vec![1u8, 2, 4, 8, 16]), 0u8..3, reqs, proptest::bool::weighted(0.3)).prop_map(|(workers, shape, requests, fresh)| NetCase { workers, shape, requests, fresh });
     ctx.prop("network", ctx.share(ctx.scale(320, 12_000)), nc, |c| eval_net(ctx, &root, c));
     let _ = std::env::set_current_dir("/");
     drop(tree);
